@@ -48,9 +48,10 @@ type Ev struct {
 }
 
 type Trace struct {
-	T    int  `json:"t"`
-	Ev   []Ev `json:"ev"`
-	Errs int  `json:"errs"`
+	T         int    `json:"t"`
+	Transport string `json:"transport"`
+	Ev        []Ev   `json:"ev"`
+	Errs      int    `json:"errs"`
 }
 
 type env struct {
@@ -207,6 +208,22 @@ func (e *env) run(kind string) (bool, string) {
 		e.inject(message.Acknowledgement, codes.Empty, q.MID, nil, nil, nil)
 		e.mid++
 		e.inject(message.Confirmable, codes.Content, e.mid, q.Token, nil, []byte("sep"))
+		return c.wait(), outcome(c)
+	case "plainBadToken": // a request that cannot be encoded (token longer than 8 bytes): the write is refused
+		c := e.async(func() (*pool.Message, error) {
+			req, err := cc.NewGetRequest(ctx, p)
+			if err != nil {
+				return nil, err
+			}
+			defer cc.ReleaseMessage(req)
+			req.SetToken(bytes.Repeat([]byte{7}, 9))
+			return cc.Do(req)
+		})
+		return c.wait(), outcome(c)
+	case "plainCtxWrite": // the context ends between admission and the write: the write is refused
+		c := e.async(func() (*pool.Message, error) {
+			return cc.Post(ctx, p, message.TextPlain, &cancelOnRead{cancel: cancel, r: bytes.NewReader([]byte("body"))})
+		})
 		return c.wait(), outcome(c)
 	case "plainCancel":
 		c := get()
@@ -457,7 +474,7 @@ func RunHistory(t int, kinds []string, poolSize uint32, trk *track.Tracker) Trac
 
 // RunHistoryOpt: immediate = the application releases every response the moment the call returns it
 func RunHistoryOpt(t int, kinds []string, poolSize uint32, trk *track.Tracker, immediate bool) Trace {
-	tr := Trace{T: t, Ev: []Ev{}}
+	tr := Trace{T: t, Transport: "udp", Ev: []Ev{}}
 	e := &env{mid: 20000, taken: map[int]bool{}, tr: trk, immediate: immediate}
 	e.u = conns.NewUDP(func(cfg *udpclient.Config) {
 		cfg.MessagePool = pool.New(poolSize, 2048)
@@ -528,7 +545,7 @@ func Run(stimPath, out string) {
 		}
 		stims = append(stims, st.Kinds)
 	}
-	res := make([]Trace, len(stims))
+	res := make([]Trace, 2*len(stims)) // every history on a udp and on a tcp connection
 	var wg sync.WaitGroup
 	sem := make(chan struct{}, 8)
 	for i := range stims {
@@ -536,7 +553,8 @@ func Run(stimPath, out string) {
 		sem <- struct{}{}
 		go func(i int) {
 			defer wg.Done()
-			res[i] = runOne(i+1, stims[i])
+			res[2*i] = runOne(i+1, stims[i])
+			res[2*i+1] = RunHistoryTCP(i+1, stims[i])
 			<-sem
 		}(i)
 	}
